@@ -140,16 +140,22 @@ class FutureResult(object):
         self.__callback = None
         self.__extra = None
 
-    def __notify(self):
+        # Protects the callback registration against the end of execution,
+        # to ensure that each registered callback is notified exactly once
+        self.__lock = threading.Lock()
+        self.__completed = False
+
+    def __notify(self, callback, extra):
         """
         Notify the given callback about the result of the execution
+
+        :param callback: The method to call back (can be None)
+        :param extra: The extra parameter registered with the callback
         """
-        if self.__callback is not None:
+        if callback is not None:
             try:
-                self.__callback(
-                    self._done_event.data,
-                    self._done_event.exception,
-                    self.__extra,
+                callback(
+                    self._done_event.data, self._done_event.exception, extra
                 )
             except Exception as ex:
                 self._logger.exception("Error calling back method: %s", ex)
@@ -165,11 +171,14 @@ class FutureResult(object):
         :param method: The method to call back in the end of the execution
         :param extra: Extra parameter to be given to the callback method
         """
-        self.__callback = method
-        self.__extra = extra
-        if self._done_event.is_set():
+        with self.__lock:
+            self.__callback = method
+            self.__extra = extra
+            completed = self.__completed
+
+        if completed:
             # The execution has already finished
-            self.__notify()
+            self.__notify(method, extra)
 
     def execute(self, method, args, kwargs):
         """
@@ -200,7 +209,12 @@ class FutureResult(object):
             self._done_event.set(result)
         finally:
             # In any case: notify the call back (if any)
-            self.__notify()
+            with self.__lock:
+                self.__completed = True
+                callback = self.__callback
+                extra = self.__extra
+
+            self.__notify(callback, extra)
 
     def done(self):
         """
